@@ -95,6 +95,8 @@ def lists(variant):
         "C:three-equal-holes": ("C", [L_("big"), sq(-3, 0, True), sq(6, 8, True), sq(14, -3, True)], ["-", ["-", ["-", L_("big"), sq(-3, 0)], sq(6, 8)], sq(14, -3)]),
         "D:two-equal-rings": ("D", [["C!", [sq(-30, 0, False, 10), sq(-27, 3, True, 4)]], ["C!", [sq(30, 0, False, 10), sq(33, 3, True, 4)]]], None),
         "D:single": ("D", [L_("triA")], L_("triA")),
+        "D:single-connected": ("D", [["C!", [L_("big"), L_("inner", True)]]], ["-", L_("big"), L_("inner")]),
+        "D:single-connected+empty": ("D", [["E"], ["C!", [L_("inner", True), L_("far", True)]]], None),
         "D:single+empty": ("D", [["E"], L_("triA")], L_("triA")),
         "D:empty-list": ("D", [], ["E"]),
         "D:only-empty": ("D", [["E"], ["E"]], ["E"]),
